@@ -18,6 +18,7 @@ EvChecks(ev, t) ==
      [] ev.ev = "tick" -> Untouched(st, [t EXCEPT !.height = st.height])
                           \o << <<"TRACE.tick-advances-height", t.height = st.height ++ ev.args.blocks>> >>
      [] ev.ev = "swap" ->
+          (IF ev.args.wrong_path THEN << <<"C04.swap.only-against-tokens-paid-in", ev.res # "ok">> >> ELSE <<>>) \o
           IF ev.res = "ok"
           THEN SwapChecks(st, fees, ev.args.i, ev.args.j, ev.args.k, ev.args.offer, ev.args.curve, ev.args.out, t)
                \o SimChecks(ev.args.sim, ev.args.out) \o HarnessAmp(ev) \o SwapLedgerChecks(st, ev.args.j, ev.args.out, t)
